@@ -12,8 +12,9 @@
 (* The Witness is also the hook for the exact spec -> code comparison (see notes/c07-report.md).*)
 EXTENDS Integers, Sequences, TLC
 
-CONSTANTS MaxIn,       \* the tuned input ranges over the boundary-adjacent values of 0..MaxIn ...
-          Slices, Slice  \* ... whose index falls into this slice (quick tier: one slice per seed; thorough: Slices = 1)
+CONSTANTS MaxIn,       \* the tuned input ranges over the boundary-adjacent values of 0..MaxIn
+          Slices, Slice  \* only requests of this 1/Slices sample are checked (quick tier: slices rotate with the seed;
+                         \* thorough tier: all slices)
 
 IAdd(a, b) == a + b
 ISub(a, b) == a - b
@@ -78,15 +79,16 @@ Out(k) == [k |-> k, change |-> << >>, fee |-> 0, hasDummy |-> FALSE, dummy |-> <
            available |-> 0, required |-> 0, dt |-> << >>, ds |-> << >>, do |-> << >>, di |-> << >>, e |-> ""]
 
 WitnessOf(q0, p) ==
-    LET in   == N!SumIn(q0)
-        out  == N!SumOut(q0)
-        sh   == N!Shape(q0)
-        fee0 == N!FeeOf(q0, N!NoChange)
-        k    == N!Notes(q0, p)
-        fee  == N!FeeFin(q0, p)
+    LET d    == N!Facts(q0)
+        in   == d.in
+        out  == d.out
+        sh   == d.sh
+        fee0 == d.fee0
+        k    == d.pool[p].notes
+        fee  == d.pool[p].fee
         need == out + fee
         chg  == in - need
-        memo == N!EffMemo(q0)
+        memo == d.memo
         bal(chs, f, man) == [Out("balance") EXCEPT !.change = chs, !.fee = f, !.hasDummy = TRUE,
                                                    !.dummy = N!Dummies(sh, man)]
         notes == [j \in 1..k |-> [pool |-> p, v |-> IF j = 1 THEN (chg \div k) + (chg % k) ELSE chg \div k,
@@ -96,17 +98,22 @@ WitnessOf(q0, p) ==
     IN  IF in < out + fee0 THEN refuse(out + fee0)
         ELSE IF in = out + fee0 /\ N!NoShieldedValue(q0) /\ ~memo THEN bal(<< >>, fee0, N!NoChange)
         ELSE IF in < need THEN refuse(need)
-        ELSE IF chg >= N!Thr(q0) THEN simple
-        ELSE IF q0.act = "reject" THEN (IF chg = 0 THEN simple ELSE refuse(need + N!Thr(q0)))
+        ELSE IF chg >= d.thr THEN simple
+        ELSE IF q0.act = "reject" THEN (IF chg = 0 THEN simple ELSE refuse(need + d.thr))
         ELSE IF q0.act = "allow" THEN simple
         ELSE IF chg > Cap THEN simple
         ELSE IF memo THEN bal(<< [pool |-> p, v |-> 0, memo |-> TRUE, eph |-> FALSE] >>, fee + chg, N!InPool(p, 1))
         ELSE bal(<< >>, fee + chg, N!NoChange)
 
-
 \* two levels so that the workers share the enumeration
 \* fees are multiples of 10, outputs of 5, thresholds 0/10/15/35: every boundary is a multiple of 5 or next to one
-InVals == {x \in 0..MaxIn : x % 5 \in {0, 1, 4} /\ (x \div 5) % Slices = Slice}
+InVals == {x \in 0..MaxIn : x % 5 \in {0, 1, 4}}
+\* a slice is a 1/Slices sample spread over the whole product of the domain
+Salt(r, iv, memo, hr, ep) ==
+    (iv \div 5) + (iv % 5) * 3 + Len(r.tinV) + 2 * Len(r.toutV) + 3 * Len(r.sin) + 5 * Len(r.sout) + 7 * Len(r.oin)
+    + 11 * Len(r.oout) + 13 * Len(r.iin) + (IF r.act = "reject" THEN 0 ELSE IF r.act = "allow" THEN 17 ELSE 19)
+    + r.thr + r.minSplit + r.notes + 1 + (IF r.hasThr THEN 43 ELSE 0) + (IF memo THEN 23 ELSE 0)
+    + (IF hr.nu63 THEN 29 ELSE 0) + (IF hr.grid THEN 0 ELSE 31) + (IF ep.k = "in" THEN 37 ELSE IF ep.k = "out" THEN 41 ELSE 0)
 Init == /\ q = NoReq /\ done = 0 /\ ws = << >>
 Pick1 == /\ done = 0 /\ done' = 1 /\ ws' = ws
          /\ \E pat \in Patterns, act \in Acts, thr \in Thrs, sp \in Splits :
@@ -114,6 +121,7 @@ Pick1 == /\ done = 0 /\ done' = 1 /\ ws' = ws
                          [k |-> "none", v |-> 0], "shield")
 Pick2 == /\ done = 1 /\ done' = 2
          /\ \E iv \in InVals, memo \in BOOLEAN, hr \in Regimes, ep \in Ephs, tp \in TPols :
+              /\ Salt(q, iv, memo, hr, ep) % Slices = Slice
               /\ (tp = "allowed" => N!NoShieldedIO(q))       \* the policy only matters for transparent flows
               /\ LET pat == << Len(q.tinV), Len(q.toutV), Len(q.sin), Len(q.sout), Len(q.oin), Len(q.oout),
                                Len(q.iin), Len(q.iout) >>
@@ -125,45 +133,50 @@ Next == Pick1 \/ Pick2
 Spec == Init /\ [][Next]_vars
 
 Ready == done = 2
+Ok(d, w) == N!AllowedD(q, d, w)
 
 Satisfiable ==
     Ready =>
-      /\ \A p \in N!CandPools(q) :
-           LET w == ws[p]
-           IN  (w.k = "balance" /\ ~N!TurnstileOK(q, w)) \/ N!Allowed(q, w)
-      /\ \E p \in N!CandPools(q) : N!Allowed(q, ws[p])
+      LET d == N!Facts(q)
+      IN  /\ \A p \in d.cand :
+               LET w == ws[p]
+               IN  (w.k = "balance" /\ ~N!TurnstileA(q, d, N!Answer(q, d, w))) \/ Ok(d, w)
+          /\ \E p \in d.cand : Ok(d, ws[p])
 
 \* perturbations of a legitimate answer that the property forbids
 Sensitive ==
     Ready =>
-      \A p \in N!CandPools(q) :
-        LET w == ws[p]
-        IN  /\ w.k = "balance" =>
-                 \* the fee is not negotiable: a marginal fee moved from the fee into the change, or back
-                 /\ (Len(w.change) > 0 /\ w.fee >= M =>
-                        ~N!Allowed(q, [w EXCEPT !.fee = @ - M, !.change[1].v = @ + M]))
-                 /\ (Len(w.change) > 0 /\ w.change[1].v > M =>
-                        ~N!Allowed(q, [w EXCEPT !.fee = @ + M, !.change[1].v = @ - M]))
-                 \* value is conserved exactly
-                 /\ ~N!Allowed(q, [w EXCEPT !.fee = @ + 1])
-                 /\ (Len(w.change) > 0 => ~N!Allowed(q, [w EXCEPT !.change[1].v = @ + 1]))
-                 \* the padding recorded for the builder is the padding that was paid for
-                 /\ ~N!Allowed(q, [w EXCEPT !.dummy[3] = @ + 1])
-            /\ w.k = "insufficient" =>
-                 /\ ~N!Allowed(q, [w EXCEPT !.required = @ - 1])
-                 /\ ~N!Allowed(q, [w EXCEPT !.available = @ + 1])
-            \* a fundable request may not be refused with made-up numbers, nor answered with a panic
-            /\ ((\A p2 \in N!CandPools(q) : ws[p2].k = "balance") =>
-                    ~N!Allowed(q, [Out("insufficient") EXCEPT !.available = N!SumIn(q), !.required = N!SumIn(q) + 1]))
-            /\ ~N!Allowed(q, Out("panic"))
+      LET d == N!Facts(q)
+      IN  \A p \in d.cand :
+            LET w == ws[p]
+            IN  /\ w.k = "balance" =>
+                     \* the fee is not negotiable: a marginal fee moved from the fee into the change, or back
+                     /\ (Len(w.change) > 0 /\ w.fee >= M =>
+                            ~Ok(d, [w EXCEPT !.fee = @ - M, !.change[1].v = @ + M]))
+                     /\ (Len(w.change) > 0 /\ w.change[1].v > M =>
+                            ~Ok(d, [w EXCEPT !.fee = @ + M, !.change[1].v = @ - M]))
+                     \* value is conserved exactly
+                     /\ ~Ok(d, [w EXCEPT !.fee = @ + 1])
+                     /\ (Len(w.change) > 0 => ~Ok(d, [w EXCEPT !.change[1].v = @ + 1]))
+                     \* the padding recorded for the builder is the padding that was paid for
+                     /\ ~Ok(d, [w EXCEPT !.dummy[3] = @ + 1])
+                /\ w.k = "insufficient" =>
+                     /\ ~Ok(d, [w EXCEPT !.required = @ - 1])
+                     /\ ~Ok(d, [w EXCEPT !.available = @ + 1])
+                \* a fundable request may not be refused with made-up numbers, nor answered with a panic
+                /\ ((\A p2 \in d.cand : ws[p2].k = "balance") =>
+                        ~Ok(d, [Out("insufficient") EXCEPT !.available = d.in, !.required = d.in + 1]))
+                /\ ~Ok(d, Out("panic"))
 
 \* what the property promises about any allowed balance, derived from the postconditions
 Promises ==
     Ready =>
-      \A p \in N!CandPools(q) :
-        LET w == ws[p]
-        IN  (w.k = "balance" /\ N!Allowed(q, w)) =>
-              /\ w.fee >= Rule.m * Rule.g
-              /\ w.fee >= N!FeeOf(q, N!Manifest(w))
-              /\ (w.fee > N!FeeOf(q, N!Manifest(w)) => q.act = "addfee" \/ N!MayTransparentChange(q))
+      LET d == N!Facts(q)
+      IN  \A p \in d.cand :
+            LET w == ws[p]
+                f == N!ShapeFee(q.rule, d.sh, N!Manifest(w))
+            IN  (w.k = "balance" /\ Ok(d, w)) =>
+                  /\ w.fee >= Rule.m * Rule.g
+                  /\ w.fee >= f
+                  /\ (w.fee > f => q.act = "addfee" \/ d.mayT)
 ===========================================================================================
